@@ -1287,6 +1287,10 @@ pub fn run(r: &Run) {
     r.prop("crud", r.tier.pick(40_000, 1_000_000), || arb_crud_case(r.tier.pick(25, 60)), check_crud);
     r.assume(GLUE_RULE);
     r.prop("export-glue", r.tier.pick(4_000, 40_000), arb_glue_case, check_glue);
+    // the one condition whose outcome depends on a table outside the route: "a statement applies when all its conditions hold"
+    // where the export path of a live session evaluates it (shared with C12)
+    r.assume(crate::props::rpkiexp::RULE);
+    r.prop("export-rpki", r.tier.pick(30_000, 600_000), || crate::props::rpkiexp::arb_case(r.tier.pick(20, 36)), crate::props::rpkiexp::check);
 }
 
 pub fn replay(sub: &str, case: &Value) -> Result<CheckResult, String> {
@@ -1296,6 +1300,9 @@ pub fn replay(sub: &str, case: &Value) -> Result<CheckResult, String> {
     }
     if sub == "export-glue" {
         return Ok(check_glue(&decode_case(case)?));
+    }
+    if sub == "export-rpki" {
+        return crate::props::rpkiexp::replay(case);
     }
     let c: Case = decode_case(case)?;
     Ok(check_eval(&c))
